@@ -241,4 +241,4 @@ def search(ctx):
     thorough = ctx.tier == "thorough"
     ctx.enumerate(enum_undisturbed(), "boundary lengths x CRC x size indication x client block size, undisturbed")
     ctx.enumerate(enum_faults(), "every segment position x {drop, flip} and end-frame faults, lengths <= 300")
-    ctx.hypothesis(rand_case(10000 if thorough else 3000), 5000 if thorough else 500)
+    ctx.hypothesis(rand_case(10000 if thorough else 3000), 25000 if thorough else 500)
